@@ -234,6 +234,8 @@ def annotate_fn(text, item: Fn, log, where):
             o = occ[0]
         else:
             if nth >= len(occ):
+                if optional:
+                    continue
                 raise AnchorLost(f"{where}: ghost anchor {anchor!r} #{nth} missing")
             o = occ[nth]
         if pos == "before":
@@ -344,10 +346,18 @@ def generate(unit: Unit, root, rules_mod):
         orig = src.text[s:e + 1]
         where = f"{it.file}::{(it.container + '::') if it.container else ''}{it.name}"
         if it.cut_before:
-            k = orig.count(it.cut_before)
-            if k != 1:
-                raise AnchorLost(f"{where}: cut anchor {it.cut_before!r} occurs {k}x")
-            cut = orig.index(it.cut_before)
+            if it.cut_from:
+                # middle fragment: the end anchor is its first occurrence AFTER the (unique) start anchor
+                if orig.count(it.cut_from) != 1:
+                    raise AnchorLost(f"{where}: cut_from anchor {it.cut_from!r} occurs {orig.count(it.cut_from)}x")
+                cut = orig.find(it.cut_before, orig.index(it.cut_from))
+                if cut < 0:
+                    raise AnchorLost(f"{where}: cut anchor {it.cut_before!r} does not occur after {it.cut_from!r}")
+            else:
+                k = orig.count(it.cut_before)
+                if k != 1:
+                    raise AnchorLost(f"{where}: cut anchor {it.cut_before!r} occurs {k}x")
+                cut = orig.index(it.cut_before)
             dropped = orig[cut:]
             orig_kept = orig[:cut] + it.cut_tail + "\n}"
             meta["rewrites"].append({"where": where, "kind": "fragment", "old": f"<{dropped.count(chr(10))} lines from `{it.cut_before}` to the end of the function>",
